@@ -197,6 +197,8 @@ def evaluate(F, body, args, depth=0, steps=400, extern=None):
                     v = v[1][p[1]]
                 elif v[0] == 'adt' and p[1] < len(v[3]):
                     v = v[3][p[1]]
+                elif v[0] == 'atom':
+                    v = ('atom', '%s.%s' % (v[1], p[1]))  # a field of an opaque value is another opaque value
                 else:
                     raise Undecided('field of ' + v[0])
                 continue
